@@ -9,6 +9,12 @@ mod tables_gen;
 mod slpp;
 mod slpp_oracles;
 mod arrow_oracle;
+mod cases;
+mod sjis;
+mod spec_tables;
+mod c05_oracle;
+mod c16_oracle;
+mod c19_oracle;
 
 fn c15(args: &[String]) -> i32 {
 	// c15 <first|last> <id>...
@@ -319,6 +325,63 @@ fn c20_strings() -> i32 {
 	}
 }
 
+/// Oracles with case-ids of their own (not gen::Spec): `<name>-search`, `<name> <case-id> [sub-case]`.
+fn by_id(cmd: &str, args: &[String]) -> i32 {
+	let t0 = std::time::Instant::now();
+	let (name, searching) = match cmd.strip_suffix("-search") {
+		Some(n) => (n, true),
+		None => (cmd, false),
+	};
+	if !searching && args.is_empty() {
+		eprintln!("usage: replay {} <case-id>", name);
+		return 3;
+	}
+	let fail = |e: String| -> i32 {
+		eprintln!("{}: {}", name, e);
+		3
+	};
+	match name {
+		"c05" => {
+			let lay = match c05_oracle::selfcheck() {
+				Ok(l) => l,
+				Err(e) => return fail(e),
+			};
+			if searching {
+				let cases = c05_oracle::candidates(lay);
+				cases::search_ids(name, &cases, &c05_oracle::check, &|| "Game Start length classes x port type patterns x teams x fillings, every legal Game End block".to_string(), t0)
+			} else {
+				cases::replay_id(name, &args[0], &c05_oracle::check)
+			}
+		}
+		"c16" => {
+			if let Err(e) = c16_oracle::selfcheck() {
+				return fail(e);
+			}
+			if searching {
+				let cases = c16_oracle::candidates();
+				cases::search_ids(name, &cases, &c16_oracle::check, &|| format!("metadata trees spliced into a synthetic replay ({}): .slp read, .slp write, .slpp metadata.json, .slpp read", c16_oracle::stats(&cases)), t0)
+			} else {
+				cases::replay_id(name, &args[0], &c16_oracle::check)
+			}
+		}
+		"c19" => {
+			let lay = match c19_oracle::selfcheck() {
+				Ok(l) => l,
+				Err(e) => return fail(e),
+			};
+			if searching {
+				let cases = c19_oracle::candidates(lay);
+				cases::search_ids(name, &cases, &|id| c19_oracle::check(id, None), &c19_oracle::stats, t0)
+			} else {
+				// the sub-case label of a WITNESS line, if any
+				let only = args.get(1).cloned();
+				cases::replay_id(name, &args[0], &|id| c19_oracle::check(id, only.as_deref()))
+			}
+		}
+		_ => 3,
+	}
+}
+
 fn main() {
 	let args: Vec<String> = std::env::args().skip(1).collect();
 	if args.is_empty() {
@@ -352,6 +415,7 @@ fn main() {
 			}
 			_ => 3,
 		},
+		"c05-search" | "c05" | "c16-search" | "c16" | "c19-search" | "c19" => by_id(&args[0], &args[1..]),
 		other => synth(other, &args[1..]),
 	};
 	exit(rc);
